@@ -224,8 +224,8 @@ verdict `SuccessAll` of that result -/
 theorem caller_gets_outermost (fuel : Nat) (ps : List Policy) (r : Run) (res : PR) (r' : Run)
     (h : execute fuel ps r = some (res, r')) :
     ∃ r1, nestFrom fuel 0 ps r = some (res, r1) ∧ res.done = true ∧
-      r'.log = r1.log ++ [⟨if res.successAll then "ex.onSuccess" else "ex.onFailure", 0, r1.attempts, r1.execs, none⟩,
-                          ⟨"ex.onDone", 0, r1.attempts, r1.execs, none⟩] := by
+      r'.log = r1.log ++ [⟨if res.successAll then "ex.onSuccess" else "ex.onFailure", 0, r1.attempts, r1.execs, some res.outcome⟩,
+                          ⟨"ex.onDone", 0, r1.attempts, r1.execs, some res.outcome⟩] := by
   obtain ⟨r1, h1, hl⟩ := C16.one_done_one_verdict fuel ps r res r' h
   exact ⟨r1, by rw [← execute_is_nesting]; exact h1, layer_done fuel ps 0 r res r1 h1, hl⟩
 
